@@ -17,3 +17,8 @@ import MdVerif.Props.C01b
 #print axioms MdVerif.DocParse2.C01b_em_line
 #print axioms MdVerif.DocParse2.C01b_em_print
 #print axioms MdVerif.DocParse2.C01_em_strong
+#print axioms MdVerif.DocParse2.C01b_mix_loop
+#print axioms MdVerif.DocParse2.C01b_mix_elem
+#print axioms MdVerif.DocParse2.C01b_mix_print
+#print axioms MdVerif.DocParse2.C01b_mix_contains
+#print axioms MdVerif.DocParse2.C01_inline_mix
